@@ -5,4 +5,16 @@ cd "$(dirname "$0")/h" || exit 1
 mkdir -p ../bin ../evidence ../replays
 go build -tags verif -o ../bin/verif.setup ./cmd/verif || exit 1
 rm -f ../bin/verif.setup
+# warm the build cache for the hz-generator module and for the instrumented (overlay) build of the scheduler checks
+(cd ../hhz && go build -tags verif -o ../bin/verifhz.setup ./cmd/verifhz && rm -f ../bin/verifhz.setup) || exit 1
+ov=$(mktemp -d)
+go build -o "$ov/vinstr" ./cmd/vinstr && "$ov/vinstr" -repo /repo -out "$ov" -verifrt "$PWD/verifrt" \
+  -extra pkg/protocol/http1/verif_snapshot.go="$PWD/inject/http1_snapshot.go.txt" \
+  -extra pkg/network/standard/verif_underlying.go="$PWD/inject/standard_underlying.go.txt" \
+  -extra pkg/network/standard/verif_ticker.go="$PWD/inject/standard_ticker.go.txt" \
+  -extra pkg/route/verif_status.go="$PWD/inject/engine_status.go.txt" \
+  $(cat inject/instrumented_files.txt) && go build -tags "verif verifsched" -overlay "$ov/overlay.json" -o "$ov/verifsched" ./cmd/verifsched
+rc=$?
+rm -rf "$ov"
+[ $rc = 0 ] || exit 1
 echo setup ok
